@@ -1728,7 +1728,7 @@ class InventoryWorkingTree(WorkingTree, MutableInventoryTree):
                 osutils.rename(from_rel_abs, to_rel_abs)
             except OSError as e:
                 raise errors.BzrMoveFailedError(
-                    entry.from_rel, entry.to_rel, e[1]
+                    entry.from_rel, entry.to_rel, e.strerror
                 ) from e
         if entry.change_id:
             to_id = inv.path2id(entry.to_rel)
